@@ -522,7 +522,7 @@ def must_facts(c, exc=True):
     IN[c.entry] = frozenset()
 
     def kills(n):
-        if n.kind in ("store", "augstore", "del", "fornext", "withitem") and n.ast is not None:
+        if n.kind in ("store", "augstore", "del", "delete", "fornext", "withitem") and n.ast is not None:
             t = n.ast
             if n.kind == "fornext":
                 t = n.ast.target
@@ -559,6 +559,16 @@ def must_facts(c, exc=True):
             out = base
             if n.kind == "test" and l in ("T", "F"):
                 out = base | frozenset(atoms_of_test(n.ast, l == "T"))
+            elif n.kind == "assert" and l != "exc" and isinstance(n.ast, ast.Assert):
+                # execution continues past an assert only when its condition held
+                conj = [n.ast.test]
+                while any(isinstance(x, ast.BoolOp) and isinstance(x.op, ast.And) for x in conj):
+                    conj = [y for x in conj for y in (x.values if isinstance(x, ast.BoolOp) and isinstance(x.op, ast.And) else [x])]
+                for x in conj:
+                    neg = False
+                    while isinstance(x, ast.UnaryOp) and isinstance(x.op, ast.Not):
+                        x, neg = x.operand, not neg
+                    out = out | frozenset(atoms_of_test(x, not neg))
             new = out if IN[m] is TOP else (IN[m] & out)
             if IN[m] is TOP or new != IN[m]:
                 IN[m] = new
